@@ -433,7 +433,11 @@ def part_target(ctx, nss, RegionGeomToO):
                 stored[names[0]] = np.array(cols[0], copy=True)
 
             with np.errstate(all="ignore"):
-                got = geom.mcintegral(trig, coseff_arg, p, thr, sn, ss, lenDec=ldec, method=method, store=store)
+                # the channel name reaches the code as an EQUAL string that need not be the interned literal of the source (a value read
+                # from a file, a numpy string, a concatenation): the channel is told by the value, never by the object
+                method_arg = (method, "".join(list(method)), np.str_(method), (method + " ").strip(), method.encode().decode())[rep % 5]
+                ctx.count(f"target_method_spelling_{rep % 5}")
+                got = geom.mcintegral(trig, coseff_arg, p, thr, sn, ss, lenDec=ldec, method=method_arg, store=store)
             cut_on = bool(cfg.detector.sun_moon.sun_moon_cuts)
             ce_arr = np.broadcast_to(np.asarray(coseff_arg, dtype=np.float64), (k,))
             # source tie: RegionGeomToO.mcintegral as translated from the source, on the path its configuration switch selects; the
